@@ -44,6 +44,10 @@ type Case struct {
 	Hex    string `json:"hex"`              // input bytes (text entries: the text)
 	Kind   string `json:"kind"`             // how the input was produced
 	Pre    bool   `json:"presized,omitempty"`
+	// LongLen > 0 (kind "long-string"): the input is a string (or raw buffer) of
+	// that many bytes where the entry expects one; it is built by the check,
+	// together with one of half the length for comparison
+	LongLen int `json:"long_len,omitempty"`
 }
 
 // Budget: wall time and cumulative allocation as a function of input length.
@@ -305,6 +309,33 @@ func validFor(t *rapid.T, c *Case) ([]byte, []ref.Field) {
 	return e.Buf, e.Fields
 }
 
+// longData builds the input of a long-string case: a string of n bytes where
+// the entry expects one.
+func longData(c Case, n int) []byte {
+	str := append(u32(uint32(n)), bytes.Repeat([]byte("abcdefg"), n/7+1)[:n]...)
+	switch c.Entry {
+	case "message":
+		h := make([]byte, 28)
+		binary.BigEndian.PutUint32(h[0:], 0x42dead42)
+		binary.LittleEndian.PutUint32(h[8:], uint32(n))
+		h[14] = 1
+		return append(h, str[4:]...)
+	case "value":
+		return append(sigString("s"), str...)
+	case "capmap":
+		return append(u32(1), append(sigString("k"), append(sigString("s"), str...)...)...)
+	}
+	switch c.Sig {
+	case "(is)":
+		return append(u32(7), str...)
+	case "[s]":
+		return append(u32(1), str...)
+	case "m":
+		return append(sigString("s"), str...)
+	}
+	return str
+}
+
 func tower(level []byte, n int, tail []byte) []byte {
 	var b []byte
 	for i := 0; i < n; i++ {
@@ -472,6 +503,17 @@ func genCase(t *rapid.T) Case {
 	if text {
 		kinds = []string{"random", "grammar-mutated", "grammar-mutated", "amplifier"}
 	}
+	if (c.Entry == "value" || c.Entry == "typed" || c.Entry == "reflect" || c.Entry == "capmap" || c.Entry == "message") && rapid.IntRange(0, 400).Draw(t, "long") == 0 {
+		c.Kind = "long-string"
+		c.LongLen = rapid.SampledFrom([]int{256 << 10, 1 << 20, 2 << 20}).Draw(t, "longlen")
+		if c.Entry == "typed" || c.Entry == "reflect" {
+			c.Sig = rapid.SampledFrom([]string{"s", "(is)", "[s]"}).Draw(t, "longsig")
+			if c.Entry == "typed" {
+				c.Sig = rapid.SampledFrom([]string{"s", "(is)", "[s]", "m"}).Draw(t, "longsigm")
+			}
+		}
+		return c
+	}
 	switch rapid.SampledFrom(kinds).Draw(t, "kind") {
 	case "random":
 		c.Kind = "random"
@@ -601,6 +643,9 @@ func checkCase(c Case) error {
 	if err != nil {
 		return vt.Violationf("C07:bad-case", "hex: %v", err)
 	}
+	if c.LongLen > 0 {
+		data = longData(c, c.LongLen)
+	}
 	if cls := excluded(c, data); cls != "" {
 		vt.Excluded(cls)
 		return nil
@@ -648,6 +693,17 @@ func checkCase(c Case) error {
 		// (no such relation on wall-clock time: one garbage collection or a busy
 		// machine is enough to break it)
 		vt.Label("tower-scaling-checked")
+	}
+	// One long string: twice the length may cost about twice as much
+	if c.LongLen > 0 && !polluted {
+		half := measure(c, longData(c, c.LongLen/2))
+		if !half.timedOut && half.panicked == nil && res.alloc > 16<<20 && res.alloc > 3*half.alloc+(8<<20) {
+			return vt.Violationf(classOf(c, "superlinear-alloc"), "%s (sig %q) allocated %d bytes for a string of %d bytes but %d bytes for one of half the length: more than linear in the length", c.Entry, c.Sig, res.alloc, c.LongLen, half.alloc)
+		}
+		if res.alloc > uint64(64<<20+40*c.LongLen) {
+			return vt.Violationf(classOf(c, "alloc"), "%s (sig %q) allocated %d bytes for a string of %d bytes", c.Entry, c.Sig, res.alloc, c.LongLen)
+		}
+		vt.Label("long-string-scaling-checked")
 	}
 	nontrivial := res.out.consumed >= 8 || res.out.accepted || res.out.replies > 0
 	labels := []string{"entry=" + c.Entry, "kind=" + c.Kind}
